@@ -470,7 +470,7 @@ def r2011_regions(ctx):
     try:
         for mom in (True, False):
             for sel in (const_value(rule_default), "other"):
-                for w in (-0.5, 0.0, 0.3, 1.0, 1.5):
+                for w in (-0.5, 0.0, 0.3, 1.0, 1.5, float("nan"), float("inf")):   # `0.0 <= nan <= 1.0` is False: rejected
                     env = {is_moment: mom, P["selection_rule"]: sel, P["constraint_weight"]: w}
                     n += 1
                     got = any(e.kind == "raise" and pc_holds(e.pc, env) for e in r.events)
